@@ -3,7 +3,7 @@
    per-subscriber bounded queues and anyio's direct hand-off to a waiting receiver.
    Used by C10 and C11.  Definitions only. *)
 From Coq Require Import List Bool Arith.
-From Asphalt Require Import Gen.Gen_signal.
+From Asphalt Require Import Gen.Gen_signal Gen.Gen_stream.
 Import ListNotations.
 
 (* ---------- identifiers ---------- *)
@@ -206,7 +206,8 @@ Definition sstep (s : sstate) (o : sop) : sstate * sout :=
   | Subscribe cs f cap =>
       (SS (bound s) (streams s ++ [new_stream cs f (Some cap) false]) (warnings s), OSub (length (streams s)))
   | Wait cs f =>
-      let st := fst (pull (new_stream cs f None true)) in
+      (* the queue wait_event opens is the one the translator read from its source on this run (Gen_stream) *)
+      let st := fst (pull (new_stream cs f wait_queue true)) in
       (SS (bound s) (streams s ++ [st]) (warnings s), OSub (length (streams s)))
   | Burst l =>
       let '(s1, rs) := burst s l in
